@@ -44,6 +44,7 @@ type ogmWorld struct {
 	instance       int
 	gens           map[int]*ogmGen
 	genOrder       []int
+	genList        []*ogmGen
 	signals        []*ogmSignal
 	setupsInFlight int
 	opsInFlight    int
@@ -124,6 +125,25 @@ func (w *ogmWorld) onFire(inst int, live ogm.OpenGameState) {
 	}
 	sort.Strings(want)
 	if fmt.Sprint(want) != fmt.Sprint(ids) {
+		// the same game count may have been set up before: an earlier set-up with exactly these
+		// participants that had completed before it was superseded may be delivered late
+		for i := len(w.genList) - 2; i >= 0; i-- {
+			e := w.genList[i]
+			if e.count != g.count || e == g || e.fires > 0 || e.instance != g.instance {
+				continue
+			}
+			ew := make([]string, 0, len(e.parts))
+			for id := range e.parts {
+				ew = append(ew, id)
+			}
+			sort.Strings(ew)
+			if fmt.Sprint(ew) == fmt.Sprint(ids) && w.couldHaveCompletedBy(e, w.genList[i+1].invokeMs+0) {
+				e.fires++
+				g.fires--
+				c.Probe("late_delivery_of_completed_generation")
+				return
+			}
+		}
 		c.Viol("C09", "C09.wrong_participants", nil, "set-up %d has participants %v but the callback reported %v", g.count, want, ids)
 		return
 	}
@@ -192,8 +212,9 @@ func (w *ogmWorld) couldHaveCompletedBy(g *ogmGen, t int64) bool {
 func (w *ogmWorld) setup(count int, parts map[string]int) {
 	c := w.c
 	g := &ogmGen{count: count, parts: parts, invokeMs: c.NowMs(), instance: w.instance, preReady: map[string]bool{}}
-	w.gens[count] = g
+	w.gens[count] = g // a fire reporting this count is attributed to the latest set-up that used it
 	w.genOrder = append(w.genOrder, count)
+	w.genList = append(w.genList, g)
 	w.setupsInFlight++
 	w.lastSetup = g
 	c.Logf("SETUP gc=%d parts=%v invoke", count, parts)
@@ -207,8 +228,8 @@ func (w *ogmWorld) setup(count int, parts map[string]int) {
 	w.setupsInFlight--
 	c.Logf("SETUP gc=%d return", count)
 	c.Judged("C09.setup")
-	if len(w.genOrder) > 1 {
-		prev := w.gens[w.genOrder[len(w.genOrder)-2]]
+	if len(w.genList) > 1 {
+		prev := w.genList[len(w.genList)-2]
 		if prev.fires == 0 {
 			c.Probe("superseded_unfired_generation")
 			if len(w.missingSignals(prev, g.invokeMs)) < len(prev.parts) {
@@ -344,7 +365,13 @@ func (w *ogmWorld) Run(c *Ctx) {
 			if d > 0 {
 				simrt.Sleep(0, time.Duration(d)*time.Millisecond)
 			}
-			count += 1 + plan.Draw(2)
+			// mostly increasing game counts; sometimes the same count is set up again (a repeated set-up
+			// call for the same hand), which supersedes like any other set-up
+			if k == 0 || !plan.Chance(1, 5) {
+				count += 1 + plan.Draw(2)
+			} else {
+				c.Probe("setup_repeats_game_count")
+			}
 			n := 1 + plan.Draw(6)
 			if plan.Chance(1, 12) {
 				n = 0
